@@ -73,7 +73,7 @@ MAP_ROWS = {
     'C12': ['insert:', 'insert_key_value:', 'checked_insert:', 'remove_entry:', 'entry.'],
     'C15': ['clone:', 'drop-copy', 'clone_from:target-longer', 'clone_from:target-shorter', 'clone_from:same-length'],
     'C19': ['fmt:map-debug', 'fmt:map-alt-debug', 'fmt:map-display', 'fmt:Iter:', 'fmt:IterMut', 'fmt:Keys', 'fmt:Values:',
-            'fmt:ValuesMut', 'fmt:IntoIter', 'fmt:IntoKeys', 'fmt:Drain'],
+            'fmt:ValuesMut', 'fmt:IntoIter', 'fmt:IntoKeys', 'fmt:Drain', 'fmt:unit-valued-map'],
 }
 SET_ROWS = {
     'C07': ['insert:', 'replace:', 'remove:', 'take:', 'retain:', 'clear:', 'drain:', 'extend:'],
@@ -201,7 +201,7 @@ plan('C12', jobs=lambda t: _simple_hist('C12', t, fam='track,large,nodrop'), rul
      level_note='Finite sample of histories; identity observable only for the tracked families.',
      design_ref='DESIGN.md section 3, C12')
 
-plan('C15', jobs=lambda t: _simple_hist('C15', t, fam='track,large,nodrop,copy', miri=(150, 1500, False)), rule=HIST_RULE + ' A fork step clones the container inside a ledger event window; both copies then continue with independent random suffixes and are swept after every step.',
+plan('C15', jobs=lambda t: _simple_hist('C15', t, fam='track,large,nodrop,copy,zst', miri=(150, 1500, False)), rule=HIST_RULE + ' A fork step clones the container inside a ledger event window; both copies then continue with independent random suffixes and are swept after every step.',
      required=rows('C15'),
      title='clone',
      technique='runtime monitoring: ledger event window around clone() (exactly one Clone event per stored key and value, nothing else), then twin histories with cross-talk sweeps of both copies after every step',
@@ -303,9 +303,9 @@ def _c13(tier):
 
 
 plan('C13', jobs=_c13,
-     rule='A case is one call of get_disjoint_mut with one key tuple on one map state. States: ALL ordered arrangements of all subsets of a 4-class universe that fit N, for N in {0,1,2,3,4,8}. Tuples: ALL tuples of length J = 0..=4 over the five keys {1,2,3,4, an always-absent key} (present and absent keys, with and without repeats, every order), each given once in the borrowed form and once as keys; random maps with N in {8,16} and tuples of length 5 and 8 on top. Under Miri: 3-class universe, N in {0,2,3}, J <= 2 (quick) / J <= 3 (thorough). Non-trivial: J >= 1; distinct by (N, slot order, tuple, form).',
+     rule='A case is one call of get_disjoint_mut with one key tuple on one map state. States: ALL ordered arrangements of all subsets of a 4-class universe that fit N, for N in {0,1,2,3,4,8}. Tuples: ALL tuples of length J = 0..=4 over the five keys {1,2,3,4, an always-absent key} (present and absent keys, with and without repeats, every order), each given once in the borrowed form and once as keys; random maps with N in {8,16} and tuples of length 5 and 8, and maps with N = 300 (requested keys stored in slots >= 256) with tuples of length 2, 3, 65 and 70 on top. Under Miri: 3-class universe, N in {0,2,3}, J <= 2 (quick) / J <= 3 (thorough). Non-trivial: J >= 1; distinct by (N, slot order, tuple, form).',
      required=['get_disjoint_mut(q):J=0', 'get_disjoint_mut(q):J=1', 'get_disjoint_mut(q):J=2:ok', 'get_disjoint_mut(q):J=2:panic', 'get_disjoint_mut(q):J=3:ok',
-               'get_disjoint_mut(q):J=4:ok', 'get_disjoint_mut(q):J=4:panic', 'get_disjoint_mut(k):J=3:ok', 'get_disjoint_mut(k):J=4:panic', 'get_disjoint_mut(q):J=8', 'random-long-tuple'],
+               'get_disjoint_mut(q):J=4:ok', 'get_disjoint_mut(q):J=4:panic', 'get_disjoint_mut(k):J=3:ok', 'get_disjoint_mut(k):J=4:panic', 'get_disjoint_mut(q):J=8', 'random-long-tuple', 'big-map(N=300):slots>=256', 'get_disjoint_mut(q):J=65', 'get_disjoint_mut(k):J=70'],
      exhaustive_subspace='all slot layouts over a 4-class universe for N in {0,1,2,3,4,8} x all key tuples of length 0..=4 over 5 keys x {borrowed form, key}',
      assumptions=NATIVE_ASSUME + SAN_ASSUME,
      title='get_disjoint_mut',
@@ -336,7 +336,7 @@ def _c18(tier):
 plan('C18', jobs=_c18,
      rule=HIST_RULE + ' In these histories plain insert is replaced by insert_unchecked whenever the documented precondition holds (map not full, or key present); when it does not hold the call is skipped, never made. Second engine: a single-shot panic injected at every user-callback tick of insert_unchecked (inside its contract) on all slot layouts over 4 classes for N in 0..=4 and on random larger states, survivors validated under the ledger. Third engine: get_disjoint_unchecked_mut on ALL pairwise-different key tuples of length 0..=4 over 5 keys on all slot layouts over a 4-class universe (N in {0,1,2,3,4,8}), compared position by position with get_mut.',
      required=['map/insert_unchecked:hit-first', 'map/insert_unchecked:hit-last', 'map/insert_unchecked:miss:partial', 'map/insert_unchecked:hit-middle:full',
-               'dj/get_disjoint_unchecked_mut:J=2', 'dj/get_disjoint_unchecked_mut:J=4', 'pf/fault:insert_unchecked:K::eq', 'pf/fault:insert_unchecked:K::drop', 'pf/fault:insert_unchecked:V::drop'],
+               'dj/get_disjoint_unchecked_mut:J=2', 'dj/get_disjoint_unchecked_mut:J=4', 'dj/get_disjoint_unchecked_mut:J=65', 'dj/big-map(N=300)', 'pf/fault:insert_unchecked:K::eq', 'pf/fault:insert_unchecked:K::drop', 'pf/fault:insert_unchecked:V::drop'],
      exhaustive_subspace='get_disjoint_unchecked_mut: all slot layouts over a 4-class universe x all pairwise-different key tuples of length 0..=4',
      assumptions=NATIVE_ASSUME + SAN_ASSUME + ['the harness calls the unsafe functions only inside their documented precondition; outside it any behaviour is the caller\'s fault'],
      title='unsafe fast paths inside their contract',
@@ -357,8 +357,8 @@ def _c14(tier):
 
 
 plan('C14', jobs=_c14,
-     rule='A case is one ordered pair (a, b) of containers, compared as a == b and b == a. Map states: ALL ordered arrangements of all subsets of a 4-class universe with 2 possible values per class (633 states when the capacity is >= 4); set states: all 65 layouts. Every ordered pair of states is compared for the capacity pairs (4,4) (4,8) (8,4) (2,4) (4,3) (0,4) (4,0) (0,0) (1,1) (2,2) (3,3) for maps and (4,4) (4,8) (8,4) (2,4) (0,3) (1,1) (2,2) (3,3) for sets, with tracked and Copy elements; so pairs differing only in one value, only in one key, only in length, and equal contents in different slot orders all occur by construction (counted per kind in coverage_matrix). Random pairs reached by two different operation histories on top. Non-trivial: at least one operand non-empty.',
-     required=['equal:same-order', 'equal:different-order', 'unequal:one-value', 'unequal:one-key', 'unequal:length', 'unequal:values', 'unequal:keys',
+     rule='A case is one ordered pair (a, b) of containers, compared as a == b and b == a, and as a != b and b != a. Map states: ALL ordered arrangements of all subsets of a 4-class universe with 2 possible values per class (633 states when the capacity is >= 4); set states: all 65 layouts. Every ordered pair of states is compared for the capacity pairs (4,4) (4,8) (8,4) (2,4) (4,3) (0,4) (4,0) (0,0) (1,1) (2,2) (3,3) for maps and (4,4) (4,8) (8,4) (2,4) (0,3) (1,1) (2,2) (3,3) for sets, with tracked and Copy elements; so pairs differing only in one value, only in one key, only in length, and equal contents in different slot orders all occur by construction (counted per kind in coverage_matrix). Random pairs reached by two different operation histories on top. Non-trivial: at least one operand non-empty.',
+     required=['zst:equal', 'zst:unequal', 'equal:same-order', 'equal:different-order', 'unequal:one-value', 'unequal:one-key', 'unequal:length', 'unequal:values', 'unequal:keys',
                'set:equal:different-order', 'set:unequal:one-key', 'set:unequal:length', 'histories:equal', 'histories:unequal'],
      exhaustive_subspace='all ordered pairs of (slot order x values) states over a 4-class universe with 2 values per class, for the listed capacity pairs, Map and Set',
      title='extensional equality',
@@ -406,7 +406,7 @@ plan('C11', jobs=_c11,
      rule='A case is (map state, key, entry method chain). States: ALL slot layouts over a 4-class universe for N in {0,1,2,3,4,8}; keys: every stored key (so first / middle / last slot) and an absent key; chains: 22 enumerated method chains of length 1..3 covering key, or_insert, or_insert_with, or_insert_with_key, or_default, and_modify (once and twice), every OccupiedEntry method (key/get/get_mut/insert/remove/remove_entry/into_mut) and every VacantEntry method (key/into_key/insert), alone and combined. Twin A runs the chain, twin B the direct operations; random larger states (N = 8, 16) on top. Every case is non-trivial; distinct by (N, slot order, key, chain).',
      required=['or_insert:miss:partial', 'or_insert:hit-last:full', 'or_insert_with:hit-first', 'or_insert_with_key:miss', 'or_default:miss', 'and_modify.or_insert:hit-middle',
                'occ.insert|vac.insert.write:hit-last', 'occ.remove|vac.key:hit-first', 'occ.remove_entry|vac.into_key:hit-middle', 'occ.into_mut.write|vac.insert:miss:partial',
-               'both-panic(full map, vacant insert)', 'random-state'],
+               'both-panic(full map, vacant insert)', 'random-state', 'zst:N=1', 'zst:N=3'],
      exhaustive_subspace='all slot layouts over a 4-class universe for N in {0,1,2,3,4,8} x every present key and one absent key x 22 entry method chains',
      assumptions=NATIVE_ASSUME + SAN_ASSUME,
      title='entry API',
